@@ -1,4 +1,5 @@
 import OomdProofs.Watcher
+import OomdProofs.WatcherOverflow
 
 /-!
 # C14 — Drop-in directory watcher: race-free, never fatal, converges to the files present
@@ -229,5 +230,138 @@ example :
       s'.active = [("c", 3), ("b", 2), ("a", 1)] := by
   refine ⟨_, _, _, rfl, rfl, rfl, ?_⟩
   decide
+
+/-! ### inotify queue overflow
+
+`files_present_partial` rests on `Faithful`: the last thing the service saw of every name is that name's final state.  A queue
+overflow is exactly where the kernel stops providing that - events are dropped.  The pinned tree ignored `IN_Q_OVERFLOW`
+(`overflow_loses_a_delete_unfixed`: a genuine defect, repaired by the `fix:` commit recorded in known_findings.txt); the
+repaired service re-scans, and `overflow_resync_restores_faithfulness` shows that the re-scan alone - whatever was lost before
+it - re-establishes `Faithful` for the directory as it is at that moment, so that `files_present_partial` applies again once
+the file system is quiet. -/
+
+/-- **The re-scan restores faithfulness.**  Whatever the service observed before (`obs`: any events may have been lost), if
+`seen` holds at least the names whose last processing was a load (`seen_files_`), then after `resyncDropInDir` has looked at a
+directory `files` the observations are faithful to that directory: every non-dot name's last observation is its state there
+(present: its load result; absent: gone). -/
+theorem overflow_resync_restores_faithfulness (obs : List (Obs α)) (seen : List String) (files : List (String × Load α))
+    (final : String → Load α)
+    (hseen : ∀ f, isSeen obs f = true → f ∈ seen)
+    (hnd : ∀ p ∈ files, ∀ q ∈ files, p.1 = q.1 → p = q)
+    (hin : ∀ p ∈ files, final p.1 = p.2)
+    (hout : ∀ f, (∀ p ∈ files, p.1 ≠ f) → final f = .noFile) :
+    Faithful final (obs ++ resyncObs seen files) := by
+  intro f hdot
+  by_cases hf : ∃ p ∈ files, p.1 = f
+  · -- present: the load of the re-scan is the last observation of `f`
+    obtain ⟨p, hp, hpf⟩ := hf
+    left
+    have hmem : Obs.add p.1 p.2 ∈ resyncObs seen files := by
+      unfold resyncObs
+      exact List.mem_append_right _ ((mem_obsOfFiles files _).2 ⟨p, hp, rfl⟩)
+    have huniq : ∀ o' ∈ resyncObs seen files, o'.name = f → o' = Obs.add p.1 p.2 := by
+      intro o' ho' hn
+      unfold resyncObs at ho'
+      rcases List.mem_append.1 ho' with h1 | h1
+      · obtain ⟨g, hg, rfl⟩ := List.mem_map.1 h1
+        simp only [Obs.name] at hn
+        have := (List.mem_filter.1 hg).2
+        exfalso
+        subst hn
+        have hany : (files.any fun q => q.1 == g) = true := List.any_eq_true.2 ⟨p, hp, by simp [hpf]⟩
+        simp [hany] at this
+      · obtain ⟨q, hq, rfl⟩ := (mem_obsOfFiles files _).1 h1
+        simp only [Obs.name] at hn
+        have : q = p := hnd q hq p hp (hn.trans hpf.symm)
+        rw [this]
+    rw [lastObs_eq_map_lastObsOf, lastObsOf_append_hit f obs _ _ hmem (by simp [Obs.name, hpf]) huniq]
+    simp [Obs.load, ← hpf, hin p hp]
+  · have hnot : ∀ p ∈ files, p.1 ≠ f := fun p hp e => hf ⟨p, hp, e⟩
+    have hfin := hout f hnot
+    by_cases hs : f ∈ seen
+    · -- gone, and remembered: the re-scan schedules its removal
+      left
+      have hmem : Obs.rem f ∈ resyncObs seen files := by
+        unfold resyncObs
+        refine List.mem_append_left _ (List.mem_map.2 ⟨f, List.mem_filter.2 ⟨hs, ?_⟩, rfl⟩)
+        have : (files.any fun q => q.1 == f) = false := by
+          apply List.any_eq_false.2
+          intro q hq
+          simpa using hnot q hq
+        simp [this]
+      have huniq : ∀ o' ∈ resyncObs seen files, o'.name = f → o' = Obs.rem f := by
+        intro o' ho' hn
+        unfold resyncObs at ho'
+        rcases List.mem_append.1 ho' with h1 | h1
+        · obtain ⟨g, _, rfl⟩ := List.mem_map.1 h1
+          simp only [Obs.name] at hn
+          rw [hn]
+        · obtain ⟨q, hq, rfl⟩ := (mem_obsOfFiles files _).1 h1
+          simp only [Obs.name] at hn
+          exact absurd hn (hnot q hq)
+      rw [lastObs_eq_map_lastObsOf, lastObsOf_append_hit f obs _ _ hmem rfl huniq]
+      simp [Obs.load, hfin]
+    · -- gone and not remembered: nothing of it was loaded last, and the re-scan does not mention it
+      have hmiss : ∀ o ∈ resyncObs seen files, o.name ≠ f := by
+        intro o ho hn
+        unfold resyncObs at ho
+        rcases List.mem_append.1 ho with h1 | h1
+        · obtain ⟨g, hg, rfl⟩ := List.mem_map.1 h1
+          simp only [Obs.name] at hn
+          exact hs (hn ▸ (List.mem_filter.1 hg).1)
+        · obtain ⟨q, hq, rfl⟩ := (mem_obsOfFiles files _).1 h1
+          simp only [Obs.name] at hn
+          exact hnot q hq hn
+      rw [lastObs_eq_map_lastObsOf, lastObsOf_append_miss f obs _ hmiss]
+      have hns : isSeen obs f = false := by
+        cases h : isSeen obs f
+        · rfl
+        · exact absurd (hseen f h) hs
+      unfold isSeen at hns
+      cases hl : lastObsOf f obs with
+      | none => right; exact ⟨rfl, fun u => by simp [hfin]⟩
+      | some o =>
+        cases o with
+        | add g l => simp [hl, hdot] at hns
+        | rem g => left; simp [Obs.load, hfin]
+
+/-- **Without the re-scan a lost event is lost for good** (the pinned tree: `IN_Q_OVERFLOW` ignored).  `c` was loaded, its
+deletion fell into the overflow: the observations are not faithful to the empty directory, and the engine keeps `c` through
+any number of quiet ticks. -/
+theorem overflow_loses_a_delete_unfixed :
+    ¬ Faithful (fun _ => (Load.noFile : Load Nat)) [Obs.add "c" (.unit 3)] ∧
+    (match run Fixes.all (St.empty : St Nat) ([.evAdd "c" (.unit 3)] ++ List.replicate 6 (.main none)) with
+     | .ok s => s.active == [("c", 3)]
+     | .fatal => false) = true := by
+  constructor
+  · intro h
+    rcases h "c" (by decide) with h1 | ⟨h1, _⟩
+    · simp [lastObs, Obs.name, Obs.load] at h1
+    · simp [lastObs, Obs.name] at h1
+  · decide
+
+/-- non-vacuity of `overflow_resync_restores_faithfulness`: `c` was loaded and its deletion lost, `a` was rewritten unseen; the
+re-scan of a directory holding `a` (new content) and a new `b` makes the observations faithful -/
+example :
+    Faithful (fun f => if f = "a" then Load.unit 11 else if f = "b" then .unit 2 else (.noFile : Load Nat))
+      ([Obs.add "c" (.unit 3), Obs.add "a" (.unit 1)] ++ resyncObs ["a", "c"] [("a", .unit 11), ("b", .unit 2)]) := by
+  apply overflow_resync_restores_faithfulness
+  · intro f hf
+    unfold isSeen lastObsOf at hf
+    by_cases ha : f = "a"
+    · simp [ha]
+    · by_cases hc : f = "c"
+      · simp [hc]
+      · simp [Obs.name, ha, hc, Ne.symm ha, Ne.symm hc] at hf
+  · intro p hp q hq h
+    simp only [List.mem_cons, List.mem_nil_iff, or_false] at hp hq
+    rcases hp with rfl | rfl <;> rcases hq with rfl | rfl <;> simp_all
+  · intro p hp
+    simp only [List.mem_cons, List.mem_nil_iff, or_false] at hp
+    rcases hp with rfl | rfl <;> simp
+  · intro f hf
+    have ha : f ≠ "a" := fun e => hf ("a", .unit 11) (by simp) e.symm
+    have hb : f ≠ "b" := fun e => hf ("b", .unit 2) (by simp) e.symm
+    simp [ha, hb]
 
 end C14
